@@ -1531,7 +1531,7 @@ impl<'a> Gen<'a> {
                 }
                 let mut k = gen_string(self.r);
                 let mut tries = 0;
-                while entries.iter().any(|e| e.1 == k) || k.chars().count() > 200 {
+                while entries.iter().any(|e| e.1 == k) || k.chars().count() > 200 || k == "<<" {
                     tries += 1;
                     k = format!("{}{}", gen_string(self.r), tries);
                 }
